@@ -46,6 +46,14 @@ CLAIMS = {
         "text": "Theorems `hashers_agree` (const/borrowed hasher = owned hasher on every schema and path; the two hand-duplicated copies are modelled separately with their own tag literals), `hash_eq_spec(_owned)` (= 64-bit FNV-1a over path ++ documented tag-and-name stream, LE digest), `type_name_irrelevant(_in_context)`, `fnv_step_injective`, `single_byte_sensitive(_digest)` with corollaries `path_byte_sensitive`, `leaf_kind_sensitive`, `field_name_byte_sensitive`, `variant_name_byte_sensitive`; `tags_pairwise_distinct`. PARTIAL (`key_sensitive_partial`): the blanket 'keys change when a name / order / kind changes' is FALSE of the code — three stream collisions are proved (`key_collision_name_framing`, `stream_collision_field_order`, `stream_collision_tuple_framing`), reproduced on the real crate each run and listed in known_findings.json.",
         "note": GENERIC_NOTE + " Sensitivity beyond single-byte stream changes is sampled (single-node mutations), not proved.",
     },
+    "C15": {
+        "text": "Theorems `tables_equal`/`data_tables_equal` (the two separately modelled serde variant-index tables of DataModelType and OwnedDataModelType agree on all 26+4 kinds, and are injective), `conv_id` (the arm-by-arm From conversion preserves kind, names, order, nesting), `punning(_val)` (borrowed and owned forms serialise to identical serde values and bytes), `owned_roundtrip_closed` / `borrowed_owned_roundtrip_closed` (for EVERY well-formed schema tree the bytes of the static schema deserialise, with any remainder untouched, to exactly the owned conversion), `serOwned_injective`. Tied to the code by probing all 30 variants of both enums plus random trees through the real Serialize/Deserialize impls each run.",
+        "note": GENERIC_NOTE,
+    },
+    "C19": {
+        "text": "Theorems `fmt_total`, `discover_total` (on the repaired code never a panic), `discover_panics_iff` (the UNREPAIRED walk panics exactly when a usize/isize/schema node is reachable — the defect found and fixed in /repo, fix: 5cca30a), `discover_exact`/`discoverSet_exact` (the collected set is exactly the schema itself plus every schema nested anywhere inside it, duplicate-free), `render_mentions` (+ struct/enum/field/variant variants: every declared name occurs as a contiguous substring of the top-level rendering), `render_tuple` (array-vs-tuple rule). Tied to the code by comparing renderings byte-for-byte and discovered sets (sorted) on all kinds and random trees.",
+        "note": GENERIC_NOTE,
+    },
 }
 
 _PENDING = "not claimed yet: the technique applies (see DESIGN.md §6); model/correspondence for this property is still being built in this session"
